@@ -457,6 +457,13 @@ func (i *IfUnless) Evaluation(
 	t *base.T,
 ) (err error) {
 
+	// the evaluator instance is shared: a conditional nested in a branch must
+	// not leave its narrowing state behind for the rest of this conditional
+	outerOriginalTs, outerNarrowTs, outerIfNarrowTs := i.originalTs, i.narrowTs, i.ifNarrowTs
+	defer func() {
+		i.originalTs, i.narrowTs, i.ifNarrowTs = outerOriginalTs, outerNarrowTs, outerIfNarrowTs
+	}()
+
 	// clear
 	i.originalTs = make(map[string][]base.T)
 	i.narrowTs = make(map[string][]base.T)
